@@ -43,6 +43,12 @@ Definition prefix_cmp (p q : prefix) : comparison :=
 
 Definition prefix_none : prefix := Metric 0.
 
+Definition cmp_eqb (x y : comparison) : bool :=
+  match x, y with
+  | Eq, Eq | Lt, Lt | Gt, Gt => true
+  | _, _ => false
+  end.
+
 Definition bool_cmp (a b : bool) : comparison :=
   match a, b with
   | false, true => Lt
@@ -383,24 +389,46 @@ Section Tbl.
       if Z.ltb n 0 && q_is_zero a then Err DivisionByZero
       else Ok (qnew (n_pow N (q_val a) (Qc_of_Z n)) (upower (q_unit a) (Qc_of_Z n))).
 
+    (* Quantity::symmetric_partial_cmp: each operand is converted to the unit of the
+       other one; the two comparisons have to agree, otherwise the quantities differ
+       only by rounding and count as equal.  Err = incompatible units, Ok None = NaN *)
+    Definition sym_cmp (a b : quantity) : res_t (option comparison) :=
+      let in_own_unit :=
+          match convert_to b (q_unit a) with
+          | Ok b' => Ok (n_cmp N (q_val a) (q_val b'))
+          | Err e => Err e
+          end in
+      let in_other_unit :=
+          match convert_to a (q_unit b) with
+          | Ok a' => Ok (n_cmp N (q_val a') (q_val b))
+          | Err e => Err e
+          end in
+      match in_own_unit, in_other_unit with
+      | Ok (Some c1), Ok (Some c2) => if cmp_eqb c1 c2 then Ok (Some c1) else Ok (Some Eq)
+      | Ok None, _ => Ok None
+      | _, Ok None => Ok None
+      | Ok c, Err _ => Ok c                      (* only one direction: a zero value *)
+      | Err _, Ok c => Ok c
+      | Err _, Err _ => Err IncompatibleUnits
+      end.
+
     (* impl PartialEq for Quantity *)
     Definition qeq (a b : quantity) : bool :=
-      match convert_to b (q_unit a) with
-      | Ok b' => n_eqb N (q_val a) (q_val b')
-      | Err _ => false
-      end.
+      match sym_cmp a b with Ok (Some Eq) => true | _ => false end.
     Definition qne (a b : quantity) : bool := negb (qeq a b).   (* default PartialEq::ne *)
+
+    (* impl PartialOrd for Quantity *)
+    Definition q_partial_cmp (a b : quantity) : option comparison :=
+      match sym_cmp a b with Ok c => c | Err _ => None end.
 
     (* Quantity::partial_cmp_preserve_nan *)
     Inductive qordering := OIncompatible | ONan | OOk (c : comparison) | OPanic.
     Definition pcmp (a b : quantity) : qordering :=
       if n_is_nan N (q_val a) || n_is_nan N (q_val b) then ONan
-      else match convert_to b (q_unit a) with
+      else match sym_cmp a b with
            | Err _ => OIncompatible
-           | Ok b' => match n_cmp N (q_val a) (q_val b') with
-                      | Some c => OOk c
-                      | None => OPanic          (* .expect(...) *)
-                      end
+           | Ok (Some c) => OOk c
+           | Ok None => OPanic                  (* .expect(...) *)
            end.
 
     (* vm.rs Op::LessThan | GreaterThan | LessOrEqual | GreatorOrEqual *)
@@ -497,15 +525,30 @@ Section Tbl.
                   [mkF (f_uid rep) (f_pfx rep) e])
       end.
 
-    Definition h3_group (g : list ufactor) : res_t (unit * T) :=
+    (* one group of heuristic 3: Ok None = the group cannot be converted to the guessed
+       target (the code then returns the quantity unchanged) *)
+    Definition h3_group (g : list ufactor) : res_t (option (unit * T)) :=
       match h3_target g with
       | None => Err Panic
       | Some target =>
           match convert_to (from_unit g) target with
-          | Ok c => Ok (target, q_val c)
-          | Err _ => Err Panic                (* .unwrap() *)
+          | Ok c => Ok (Some (target, q_val c))
+          | Err _ => Ok None                  (* let Ok(converted) = ... else { return self.clone() } *)
           end
       end.
+
+    (* the loop over the groups; Ok None once a group has failed (early return) *)
+    Definition h3_step (acc : res_t (option (unit * T))) (g : list ufactor) : res_t (option (unit * T)) :=
+      bind acc (fun o =>
+        match o with
+        | None => Ok None
+        | Some (su, fac) =>
+            bind (h3_group g) (fun r =>
+              match r with
+              | None => Ok None
+              | Some (target, cv) => Ok (Some (umul su target, n_mul N fac cv))
+              end)
+        end).
 
     Definition full_simplify (q : quantity) : res_t quantity :=
       if negb (q_simp q) then Ok q
@@ -536,12 +579,11 @@ Section Tbl.
             | None =>
                 (* heuristic 3 *)
                 let groups := chunk_by_key (canon (q_unit q)) in
-                let step acc g :=
-                    bind acc (fun '(su, fac) =>
-                    bind (h3_group g) (fun '(target, cv) =>
-                    Ok (umul su target, n_mul N fac cv))) in
-                bind (fold_left step groups (Ok ([], n_one N))) (fun '(su, fac) =>
-                Ok (qnew (n_mul N (q_val q) fac) (canon su)))
+                match fold_left h3_step groups (Ok (Some ([], n_one N))) with
+                | Ok (Some (su, fac)) => Ok (qnew (n_mul N (q_val q) fac) (canon su))
+                | Ok None => Ok q                   (* return self.clone() *)
+                | Err e => Err e
+                end
             end
         end.
 
@@ -622,6 +664,6 @@ Section Expr.
     | EDiv a b => bind (eval a) (fun x => bind (eval b) (fun y => qdiv N x y))
     | ENeg a => bind (eval a) (fun x => Ok (qneg N x))
     | EPow a n => bind (eval a) (fun x => qpow N x n)
-    | EConv a u => bind (eval a) (fun x => convert_to N tbl res keys x u)
+    | EConv a u => bind (eval a) (fun x => vm_convert N tbl res keys x (from_unit N u))   (* vm.rs Op::ConvertTo *)
     end.
 End Expr.
